@@ -20,7 +20,7 @@ from . import boot
 mon = sys.monitoring
 TOOL = mon.DEBUGGER_ID
 BIG = 10**12
-_STATE = {"armed": False, "codes": 0, "focus_files": ("ruler.py",), "focus_codes": set(), "mut_codes": set(), "mut_names": {}}
+_STATE = {"armed": False, "codes": 0, "focus_files": ("ruler.py",), "focus_codes": set(), "mut_codes": set(), "mut_names": {}, "mut_offsets": {}}
 _MUTATORS = {"clear", "pop", "popitem", "setdefault", "update", "append", "add", "remove", "discard", "insert", "extend", "appendleft", "popleft", "move_to_end", "sort", "reverse"}
 
 
@@ -102,6 +102,13 @@ def arm() -> int:
             names = [ins.argval for ins in ins_list if ins.opname == "LOAD_GLOBAL" and isinstance(g.get(ins.argval), (dict, list, set, bytearray)) or (ins.opname == "LOAD_GLOBAL" and type(g.get(ins.argval)).__name__ in ("deque", "OrderedDict", "defaultdict", "Counter"))]
             if names and any(ins.opname in ("STORE_SUBSCR", "DELETE_SUBSCR") or (ins.opname in ("LOAD_ATTR", "LOAD_METHOD") and ins.argval in _MUTATORS) for ins in ins_list):
                 _STATE["mut_codes"].add(c)
+                # byte-code offsets just after a mutation (a window of a dozen instructions behind each store/call)
+                offs = set()
+                for j, ins in enumerate(ins_list):
+                    if ins.opname in ("STORE_SUBSCR", "DELETE_SUBSCR") or (ins.opname in ("LOAD_ATTR", "LOAD_METHOD") and ins.argval in _MUTATORS):
+                        for nxt in ins_list[j + 1 : j + 14]:
+                            offs.add(nxt.offset)
+                _STATE["mut_offsets"][c] = offs
                 _STATE["mut_names"][f"{c.co_filename[len(root) + 1:]}:{c.co_name}"] = sorted(set(names))
     _STATE["armed"] = True
     _STATE["codes"] = len(codes)
@@ -125,6 +132,7 @@ class Sched:
         self.record_focus = record_focus
         self.focus: list[int] = []  # instruction indices of thread 0 lying in rule-management code
         self.stalled = False
+        self.mutpoints: list[int] = []  # ... just behind a mutation of such a container
         self.mutfocus: list[int] = []  # ... lying in code that can mutate a module-level container
 
     def _next_quantum(self) -> int:
@@ -143,6 +151,8 @@ class Sched:
                 self.focus.append(c)
             if code in _STATE["mut_codes"]:
                 self.mutfocus.append(c)
+                if offset in _STATE["mut_offsets"].get(code, ()):
+                    self.mutpoints.append(c)
         self.quantum_left -= 1
         if self.quantum_left <= 0:
             self._switch(i)
